@@ -92,6 +92,25 @@ impl VOp {
             }
         }
     }
+    /// upper bound of the number of messages this top-level operation publishes (a direct call: one; a traversal:
+    /// one per set / remove made through its entries; a transaction: one)
+    pub fn max_messages(&self) -> u64 {
+        let decs = |d: &Vec<Dec>| -> u64 {
+            d.iter()
+                .map(|x| match x {
+                    Dec::Keep | Dec::Stop => 0,
+                    Dec::Set(_) | Dec::Remove => 1,
+                    Dec::SetRemove(_) | Dec::SetSet(..) => 2,
+                })
+                .sum()
+        };
+        match self {
+            VOp::ForEach(d) | VOp::Entries(d) => decs(d),
+            VOp::EntrySetTwice(..) => 2,
+            VOp::DropSubs => 0,
+            _ => 1,
+        }
+    }
     pub fn kind(&self) -> &'static str {
         match self {
             VOp::Append(_) => "append",
@@ -476,7 +495,11 @@ pub fn gen_vop(rng: &mut Rng, len: usize, vmax: u32, oob: bool, trav: bool, maxl
         let idx_in = |rng: &mut Rng, upto: usize| -> Option<usize> {
             // upto = number of valid indices
             if oob && rng.chance(1, 12) {
-                Some(upto + rng.below(3))
+                if rng.chance(1, 5) {
+                    Some(*rng.pick(&[usize::MAX, usize::MAX - 1, usize::MAX / 2, usize::MAX / 2 + 1]))
+                } else {
+                    Some(upto + rng.below(3))
+                }
             } else if upto == 0 {
                 None
             } else {
@@ -506,7 +529,13 @@ pub fn gen_vop(rng: &mut Rng, len: usize, vmax: u32, oob: bool, trav: bool, maxl
                 Some(i) => VOp::Remove(i),
                 None => continue,
             },
-            9 if rng.chance(1, 2) => VOp::Truncate(rng.below(len + 3)),
+            9 if rng.chance(1, 2) => {
+                if rng.chance(1, 15) {
+                    VOp::Truncate(*rng.pick(&[usize::MAX, usize::MAX - 1, usize::MAX / 2 + 1]))
+                } else {
+                    VOp::Truncate(rng.below(len + 3))
+                }
+            }
             10 if grow_ok => VOp::PushBack(v(rng)),
             11 => match idx_in(rng, len) {
                 Some(i) => {
